@@ -241,7 +241,8 @@ void ebpps_sketch<T, A>::internal_merge(O&& sk) {
     if (cumulative_wt_ > 0.0)
       sample_.downsample(new_rho / rho_);
   
-    tmp_.replace_content(conditional_forward<O>(items[i]), new_rho * avg_wt);
+    // new_rho * avg_wt cannot exceed 1 except by rounding error in avg_wt
+    tmp_.replace_content(conditional_forward<O>(items[i]), std::min(1.0, new_rho * avg_wt));
     sample_.merge(tmp_);
 
     cumulative_wt_ = new_cum_wt;
@@ -259,7 +260,7 @@ void ebpps_sketch<T, A>::internal_merge(O&& sk) {
     if (cumulative_wt_ > 0.0)
       sample_.downsample(new_rho / rho_);
   
-    tmp_.replace_content(conditional_forward<O>(other_sample.get_partial_item()), new_rho * other_c_frac * avg_wt);
+    tmp_.replace_content(conditional_forward<O>(other_sample.get_partial_item()), std::min(1.0, new_rho * other_c_frac * avg_wt));
     sample_.merge(tmp_);
 
     cumulative_wt_ = new_cum_wt;
